@@ -51,6 +51,7 @@ structure Skeleton where
   bcPublishSelectsSend       : Bool  -- case c.channel <- v
   bcPublishSelectsEntryCtx   : Bool  -- case <-c.ctx.Done()
   bcReceiveRefusesWhenClosed : Bool
+  bcReceiveErrorsOnlyClosed  : Bool  -- the only error Receive ever returns is ErrClosed (for a closed broadcaster): callers treat every Receive error as fatal
   bcReceiveChildCtx          : Bool  -- entry ctx derives from the caller's ctx
   bcReceiveReusesEntry       : Bool  -- existing entry is reused, not replaced
   bcRecvSelectsChan          : Bool
@@ -119,6 +120,8 @@ structure Skeleton where
   reqOneResponsePerBranch    : Bool  -- each branch writes exactly one response
   reqCtxCarriesRemoteId      : Bool  -- context.WithValue(ctx, RemoteIDContextKey, remoteID)
   reqLoopExitsOnReadErr      : Bool
+  reqFrameFreshPerIteration  : Bool  -- the Request struct is declared inside the request loop body: the handler goroutines of different frames never share it
+  respFrameFreshPerIteration : Bool  -- likewise the Response struct in the response loop
   /- ---------------- lookup ---------------- -/
   lkSplitOnDot               : Bool
   lkEmptyPathRejected        : Bool
@@ -151,6 +154,8 @@ structure Skeleton where
   cvUsesConvertibleTo        : Bool
   cvSliceElementwise         : Bool
   cvFallbackError            : Bool
+  pxResultChecksValid        : Bool  -- closure proxy: the result is converted iff `rcpRv[0].Elem().IsValid()` (and for no other reason skipped)
+  pxArgsFreshPerInvocation   : Bool  -- closure proxy: the []interface{} argument list is built inside the per-invocation literal
   clArgCountChecked          : Bool
   clCallViaUtilsCall         : Bool
   clLookupUnderLock          : Bool
@@ -189,6 +194,7 @@ structure Skeleton where
   stHandoffGuarded           : Bool  -- (repaired tree) hand-off sends also select on the link ctx
   stDecodeErrBeforeClose     : Bool
   stDecoderExitsOnErr        : Bool
+  stAbortClosesDone          : Bool  -- (repaired tree) every context-done exit of the decoder records decodeErr and closes decodeDone before returning
   stReadersSelectDone        : Bool
   stEncodeRequestOnly        : Bool  -- Message{Request:&b}
   stEncodeResponseOnly       : Bool  -- Message{Response:&b}
